@@ -628,6 +628,11 @@ class C05(Prop):
                 return {"observed": {"diff": first_diff(checklib.canon(got), checklib.canon(exp))},
                         "required": "the loaded object carries the facts of the old document under the documented mapping",
                         "kind": "facts-differ"}
+        if fmt == "treeinfo" and exp is None:
+            bad = self.general_mirror(case, snap)
+            if bad is not None:
+                return {"observed": {"diff": bad}, "required": "the facts a pre-productmd [general] section states directly (arch, timestamp, "
+                        "variant, disc numbers: doc/treeinfo-1.0.rst) are carried over", "kind": "facts-differ"}
         dump = real_out.get("dump") or {}
         if "ok" not in dump:
             return {"observed": {"dump": dump}, "required": "an accepted older document can be written back", "kind": "dump-refused"}
@@ -646,6 +651,39 @@ class C05(Prop):
         if d2.get("ok") != dump["ok"]:
             return {"observed": {"second": first_text_diff(dump["ok"], d2.get("ok")) if "ok" in d2 else d2},
                     "required": "a second write is byte-identical", "kind": "bytes-differ"}
+        return None
+
+    def general_mirror(self, case, snap):
+        """pre-productmd files: the only documented meaning is that of [general] as a mirror of the authoritative sections
+        (doc/treeinfo-1.0.rst): arch = [tree]/arch, timestamp = [tree]/build_timestamp (whole seconds), variant = UID of the
+        variant, discnum/totaldiscs = [media]"""
+        import configparser
+        text = self.document(case)[1]
+        cp = configparser.RawConfigParser(interpolation=None)
+        cp.optionxform = str
+        try:
+            cp.read_string(text)
+        except configparser.Error:
+            return None
+        if cp.has_section("header") or not cp.has_section("general"):
+            return None
+        g = dict(cp.items("general"))
+        if "arch" in g and snap["tree"]["arch"] != g["arch"]:
+            return {"at": "tree.arch", "observed": snap["tree"]["arch"], "expected": g["arch"]}
+        if "timestamp" in g:
+            try:
+                want = int(float(g["timestamp"]))
+            except ValueError:
+                want = None
+            if want is not None and snap["tree"]["build_timestamp"] != want:
+                return {"at": "tree.build_timestamp", "observed": snap["tree"]["build_timestamp"], "expected": want}
+        if g.get("variant"):
+            uids = [v["uid"] for v in snap["variants"]]
+            if uids != [g["variant"]]:
+                return {"at": "variants", "observed": uids, "expected": [g["variant"]]}
+        for k in ("discnum", "totaldiscs"):
+            if k in g and g[k].strip().isdigit() and snap["media"][k] != int(g[k]):
+                return {"at": "media." + k, "observed": snap["media"][k], "expected": int(g[k])}
         return None
 
     def settled(self, fmt, snap):
